@@ -438,4 +438,54 @@ theorem unrollBlocks_closure_adjoint (a x : Tensor S) (B : List Nat) (D R C sr s
   simp only [hN, unrollIdx_eq_rollIdx]
   exact this
 
+/-! ### the product `conv` forms: `unrolled · filtersᵀ` (second operand transposed) -/
+
+/-- the product buffer of an `m×k` row-major buffer with a second operand given entry-wise (`Bf t j`: whatever its
+    layout / transposition flag) -/
+def mmBufG (m k n : Nat) (av : List S) (Bf : Nat → Nat → S) : List S :=
+  (List.range (m * n)).map (fun i => sumRange k (fun t => av.getD (i / n * k + t) zero * Bf t (i % n)))
+
+/-- the left closure's product buffer for the same entry function -/
+def mmBufTG (m n k : Nat) (xv : List S) (Bf : Nat → Nat → S) : List S :=
+  (List.range (m * k)).map (fun i => sumRange n (fun j => Bf (i % k) j * xv.getD (i / k * n + j) zero))
+
+/-- **buffer level, left operand, second operand in any layout** -/
+theorem mmBufG_adjoint_left (m k n : Nat) (av xv : List S) (Bf : Nat → Nat → S) (ha : av.length = m * k) (hx : xv.length = m * n) :
+    dot (mmBufG m k n av Bf) xv = dot av (mmBufTG m n k xv Bf) := by
+  rw [dot_eq_sumRange _ _ (by simp [mmBufG, hx]), dot_eq_sumRange _ _ (by simp [mmBufTG, ha])]
+  have l1 : (mmBufG m k n av Bf).length = m * n := by simp [mmBufG]
+  rw [l1, ha, sumRange_mul_split, sumRange_mul_split]
+  rw [sumRange_congr_lt m (g := fun r => sumRange n (fun j =>
+      sumRange k (fun t => av.getD (r * k + t) zero * Bf t j) * xv.getD (r * n + j) zero))
+    (fun r hr => sumRange_congr_lt n (fun j hj => by
+      show (mmBufG m k n av Bf).getD (r * n + j) zero * _ = _
+      rw [mmBufG, getD_map_range_adj _ _ _ (mul_add_lt r j n m hr hj), (divmod_mul_add r n j hj).1, (divmod_mul_add r n j hj).2]))]
+  rw [matmul_kernel_adjoint_left m k n (fun r t => av.getD (r * k + t) zero) Bf (fun r j => xv.getD (r * n + j) zero)]
+  refine sumRange_congr_lt m (fun r hr => sumRange_congr_lt k (fun t ht => ?_))
+  show _ = av.getD (r * k + t) zero * (mmBufTG m n k xv Bf).getD (r * k + t) zero
+  rw [mmBufTG, getD_map_range_adj _ _ _ (mul_add_lt r t k m hr ht), (divmod_mul_add r k t ht).1, (divmod_mul_add r k t ht).2]
+
+/-- `a · bᵀ` for matrices `a : [m,k]`, `b : [n,k]` (the product `conv` forms with the reshaped filters) -/
+theorem specMatmul_2d_vals_FT (a b : Tensor S) (m k n : Nat) (ha : a.dims = [m, k]) (hb : b.dims = [n, k]) :
+    (specMatmul a false b true none).vals = mmBufG m k n a.vals (fun t j => b.vals.getD (j * k + t) zero) := by
+  simp only [specMatmul, Tensor.ofFn, ha, hb, mmBufG]
+  simp [bdims, bdimsRev, prod, unflatten, proj, Tensor.get, rowMajor, ha, hb, AddLaws.zero_add]
+
+/-- its left closure's product `x · b` (`x : [m,n]`, `b : [n,k]`, both untransposed) -/
+theorem specMatmul_2d_vals_FF_T (x b : Tensor S) (m k n : Nat) (hx : x.dims = [m, n]) (hb : b.dims = [n, k]) :
+    (specMatmul x false b false none).vals = mmBufTG m n k x.vals (fun t j => b.vals.getD (j * k + t) zero) := by
+  simp only [specMatmul, Tensor.ofFn, hx, hb, mmBufTG]
+  simp [bdims, bdimsRev, prod, unflatten, proj, Tensor.get, rowMajor, hx, hb, AddLaws.zero_add]
+  intro i _
+  exact sumRange_congr_adj (fun t => CommLaws.mul_comm _ _)
+
+/-- **`a · bᵀ`, left operand**: `⟨a·bᵀ, x⟩ = ⟨a, x·b⟩` -/
+theorem matmul2d_FT_adjoint_left (a b x : Tensor S) (m k n : Nat) (ha : a.dims = [m, k]) (hb : b.dims = [n, k])
+    (hx : x.dims = [m, n]) (hwa : a.WF) (hwx : x.WF) :
+    dot (specMatmul a false b true none).vals x.vals = dot a.vals (specMatmul x false b false none).vals := by
+  rw [specMatmul_2d_vals_FT a b m k n ha hb, specMatmul_2d_vals_FF_T x b m k n hx hb]
+  apply mmBufG_adjoint_left
+  · rw [← hwa.2, ha]; simp [prod]
+  · rw [← hwx.2, hx]; simp [prod]
+
 end Corgi
